@@ -860,6 +860,16 @@ func (env *Env) call(x *ECall) (CVal, error) {
 			}
 		}
 		return CVal{fc.fmtArg(v.T, verb, spec), types.Typ[types.String]}, nil
+	case "egerr": // egerr(g): the error recorded so far by the *errgroup.Group g (fork/join model)
+		args, err := evalArgs()
+		if err != nil {
+			return CVal{}, err
+		}
+		if len(args) != 1 || args[0].T.Sort != SInt {
+			return CVal{}, fmt.Errorf("egerr(g) needs a *errgroup.Group")
+		}
+		a := fc.heapGet(env.state(), "EG$err", arr(SInt, SAny))
+		return CVal{Term{sel(a.S, args[0].T.S), SAny}, types.Universe.Lookup("error").Type()}, nil
 	case "bufstr": // bufstr(b): the content of the *bytes.Buffer b
 		args, err := evalArgs()
 		if err != nil {
